@@ -1610,6 +1610,9 @@ def generate(ctx):
             if rng.random() < 0.5:
                 _overlay(dflt, old, rng)
         yield "update", {"old": old, "new": new, "priority": prio, "defaults": dflt}
+    # texts whose base64 form needs the two alphabet positions 62 / 63 ('>', '?', '~' at every byte alignment), non-ASCII
+    for i, t in enumerate(["a>?~>>??~~", ">", "?>", "~~?", "x>>>???~~~", "h\u00e9llo \u2603", "a/b+c"]):
+        yield "serset", {"cfg": {"k": ["s", t], "a": {"b" + "c" * (i % 3): ["s", t + "?"]}}, "key": "a.x", "value": ["s", "~" + t]}
     for _ in range(ctx.n(60, 600)):
         cfg = gen_cfg(rng, depth=3, segs=SEG_UPD)
         yield "serset", {"cfg": cfg, "key": gen_key(rng, cfg, segs=SEG_UPD), "value": gen_value(rng)}
